@@ -3,6 +3,8 @@ package px
 import (
 	"fmt"
 	"sort"
+	"strconv"
+	"strings"
 
 	"verif/fw"
 )
@@ -10,6 +12,7 @@ import (
 // C06 - aliases interchangeable, Called/CalledAs exact, untouched options keep defaults.
 // Absolute: intended-outcome fold for every key at every level + pointer/Var agreement.
 // Relational: the same intended parse written with primary names only gives the same outcome except CalledAs.
+// Store agreement: every 4th case writes one option through SetValue after Parse and re-reads every key, pointer and Var.
 
 // primaryVariant - same items, every occurrence written with the option's primary name in long spelling.
 func primaryVariant(s *Scenario, mode int) *Scenario {
@@ -44,6 +47,133 @@ func stateNoCalledAs(oc *Outcome) []string {
 	}
 	sort.Strings(out)
 	return out
+}
+
+// setValueStep - "the pointer returned at definition, the *Var target and Value(x) always agree": after a successful
+// Parse one option is written through SetValue at a random level where it is visible; afterwards every key of that
+// option at every level and its pointer must show the new value, every other option must be unchanged, and no
+// Called/CalledAs answer may have changed (SetValue is not the command line, the environment or SetCalled).
+func setValueStep(r *Rng, p *Prog, argv []string) (events int, diffs []string) {
+	var b *Built
+	pan := ""
+	func() {
+		defer func() {
+			if x := recover(); x != nil {
+				pan = fmt.Sprint(x)
+			}
+		}()
+		b = Build(p)
+	}()
+	if pan != "" {
+		return 0, nil
+	}
+	defer b.Cleanup()
+	before := b.RunParse(argv)
+	if before.HasErr || before.Panic != "" {
+		return 0, nil
+	}
+	paths := make([]string, 0, len(b.Nodes))
+	for path := range b.Nodes {
+		paths = append(paths, path)
+	}
+	sort.Strings(paths)
+	path := paths[r.Intn(len(paths))]
+	n := b.Tree.Nodes[path]
+	var cands []*Opt
+	for _, o := range n.Visible {
+		if o == b.Tree.HelpOpt {
+			continue
+		}
+		switch o.Kind {
+		case KString, KStringOpt, KInt, KIntOpt, KFloat, KFloatOpt, KBool, KIncr, KStrings:
+			cands = append(cands, o)
+		}
+	}
+	if len(cands) == 0 {
+		return 0, nil
+	}
+	o := cands[r.Intn(len(cands))]
+	h := b.Ptrs[o.ID]
+	var args []string
+	want := ""
+	switch {
+	case o.Kind == KBool:
+		want = Enc(!o.DefB)
+	case o.Kind == KIncr:
+		cur, _ := strconv.Atoi(strings.TrimPrefix(before.Ptrs[o.ID], "i:"))
+		want = Enc(cur + 1)
+	case o.Kind.IsStr():
+		t := r.Pick(append([]string{"", "-x", "--", "a=b", "x y", "\xff\n"}, HostilePlain...))
+		if len(o.Valid) > 0 {
+			t = r.Pick(o.Valid)
+		}
+		args = []string{t}
+		if o.Kind == KStrings {
+			cur := []string{}
+			if h != nil && h.ss != nil {
+				cur = append(cur, (*h.ss)...)
+			}
+			want = Enc(append(cur, t))
+		} else {
+			want = Enc(t)
+		}
+	case o.Kind.IsInt():
+		v := r.Range(-1000, 1000)
+		args = []string{strconv.Itoa(v)}
+		want = Enc(v)
+	case o.Kind.IsFloat():
+		v := float64(r.Range(-4000, 4000)) / 8
+		args = []string{strconv.FormatFloat(v, 'g', -1, 64)}
+		want = Enc(v)
+	}
+	if len(o.Valid) > 0 && !o.Kind.IsStr() {
+		return 0, nil
+	}
+	var err error
+	func() {
+		defer func() {
+			if x := recover(); x != nil {
+				pan = fmt.Sprint(x)
+			}
+		}()
+		err = b.Nodes[path].SetValue(o.Name, args...)
+	}()
+	if pan != "" {
+		return 1, []string{fmt.Sprintf("SetValue(%q, %q) at level %q panicked: %s", o.Name, args, path, pan)}
+	}
+	if err != nil {
+		return 1, []string{fmt.Sprintf("SetValue(%q, %q) at level %q (valid text for a %s option) returned %v", o.Name, args, path, o.Kind, err)}
+	}
+	after := &Outcome{}
+	b.Snapshot(after)
+	for k, ob := range before.Opts {
+		oa := after.Opts[k]
+		i := strings.Index(k, "|")
+		ko := b.Tree.Nodes[k[:i]].KeyTable()[k[i+1:]]
+		if ko == o {
+			if oa.Val != want {
+				diffs = append(diffs, fmt.Sprintf("after SetValue(%q, %q) at level %q: Value(%q) at level %q is %s, want %s", o.Name, args, path, k[i+1:], k[:i], oa.Val, want))
+			}
+		} else if oa.Val != ob.Val {
+			diffs = append(diffs, fmt.Sprintf("SetValue(%q, %q) at level %q changed another option: %s was %s, is %s", o.Name, args, path, k, ob.Val, oa.Val))
+		}
+		if oa.Called != ob.Called || oa.CalledAs != ob.CalledAs {
+			diffs = append(diffs, fmt.Sprintf("SetValue(%q, %q) at level %q changed Called/CalledAs of %s: %v/%q -> %v/%q", o.Name, args, path, k, ob.Called, ob.CalledAs, oa.Called, oa.CalledAs))
+		}
+		events++
+	}
+	for id, pb := range before.Ptrs {
+		pa := after.Ptrs[id]
+		if id == o.ID {
+			if pa != want {
+				diffs = append(diffs, fmt.Sprintf("after SetValue(%q, %q): pointer/Var target of the option is %s, want %s", o.Name, args, pa, want))
+			}
+		} else if pa != pb {
+			diffs = append(diffs, fmt.Sprintf("SetValue(%q, %q) changed the pointer/Var target of option #%d: %s -> %s", o.Name, args, id, pb, pa))
+		}
+		events++
+	}
+	return events, diffs
 }
 
 func init() {
@@ -113,6 +243,18 @@ func init() {
 					return viol("alias interchange", []string{fmt.Sprintf("alias spelling %q and primary-name spelling %q differ beyond CalledAs: %v vs %v; remaining %q vs %q", s.Argv, v.Argv, a, b, oc.Remaining, oc2.Remaining)}, doc)
 				}
 				res.Events += len(a)
+			}
+			if !exp.Err && idx%4 == 1 {
+				ev, d := setValueStep(r, p, s.Argv)
+				res.Execs++
+				res.Events += ev
+				if len(d) > 0 {
+					doc.Got = oc
+					return viol("pointer / Var / Value agreement after SetValue", d, doc)
+				}
+				if ev > 0 {
+					res.Cells = append(res.Cells, "setvalue")
+				}
 			}
 			if usedAlias && untouched && !exp.Err {
 				res.Sig = scenSig(s)
